@@ -516,6 +516,104 @@ func (s *sim) checkForkLookups(box *stateBox, where string) {
 	}
 }
 
+// C14: schedule lookups that need no state, over a schedule that also activates the forks the
+// library only knows as types (electra) or as a version (fulu): Spec.ForkVersion, the decoder's digest
+// for an epoch, and the block type the decoder allocates for a digest.
+func (s *sim) checkScheduleLookups() {
+	w := s.w
+	sp := *w.spec
+	r := core.NewRng(s.cfg.Seed ^ 0xf07c)
+	// seven forks: non-decreasing epochs from the run's own schedule, then electra and fulu
+	epochs := []uint64{0}
+	last := uint64(0)
+	for _, e := range s.cfg.ForkEpochs {
+		epochs = append(epochs, e)
+		if e != farFuture {
+			last = e
+		}
+	}
+	for i := 0; i < 2; i++ {
+		prev := epochs[len(epochs)-1]
+		switch {
+		case prev == farFuture || r.Chance(1, 5):
+			epochs = append(epochs, farFuture)
+		case r.Chance(1, 4):
+			epochs = append(epochs, prev) // same epoch as the fork before
+		default:
+			last = prev + uint64(r.Range(1, 3))
+			epochs = append(epochs, last)
+		}
+	}
+	sp.ELECTRA_FORK_EPOCH, sp.FULU_FORK_EPOCH = common.Epoch(epochs[5]), common.Epoch(epochs[6])
+	versions := []common.Version{sp.GENESIS_FORK_VERSION, sp.ALTAIR_FORK_VERSION, sp.BELLATRIX_FORK_VERSION, sp.CAPELLA_FORK_VERSION, sp.DENEB_FORK_VERSION, sp.ELECTRA_FORK_VERSION, sp.FULU_FORK_VERSION}
+	pkgs := []string{"phase0", "altair", "bellatrix", "capella", "deneb", "electra"}
+	forkAt := func(epoch uint64) int {
+		f := 0
+		for i := 1; i < len(epochs); i++ {
+			if epochs[i] != farFuture && epoch >= epochs[i] {
+				f = i
+			}
+		}
+		return f
+	}
+	dec := beacon.NewForkDecoder(&sp, w.gvr)
+	digestOf := func(f int) common.ForkDigest {
+		rt := forkDataRoot(versions[f], w.gvr)
+		var d common.ForkDigest
+		copy(d[:], rt[:4])
+		return d
+	}
+	probe := map[uint64]bool{0: true, last + 2: true}
+	for _, e := range epochs {
+		if e != farFuture {
+			probe[e] = true
+			probe[e+1] = true
+			if e > 0 {
+				probe[e-1] = true
+			}
+		}
+	}
+	for e := range probe {
+		want := forkAt(e)
+		s.res.Stat("schedule_lookup_checks", 1)
+		if v := sp.ForkVersion(common.Slot(e * s.cfg.SPE)); v != versions[want] {
+			s.viol("C14", "spec-fork-version/seven-forks", fmt.Sprintf("Spec.ForkVersion at epoch %d = %s, the schedule %v says fork #%d (%s)", e, v, epochs, want, versions[want]))
+			return
+		}
+		if v := sp.ForkVersion(common.Slot(e*s.cfg.SPE + s.cfg.SPE - 1)); v != versions[want] {
+			s.viol("C14", "spec-fork-version/seven-forks", fmt.Sprintf("Spec.ForkVersion at the last slot of epoch %d = %s, the schedule %v says fork #%d", e, v, epochs, want))
+			return
+		}
+		if d := dec.ForkDigest(common.Epoch(e)); d != digestOf(want) {
+			s.viol("C14", "fork-decoder-digest/seven-forks", fmt.Sprintf("ForkDecoder.ForkDigest(epoch %d) = %s, the schedule %v says fork #%d (%s)", e, d, epochs, want, digestOf(want)))
+			return
+		}
+	}
+	// digest -> block type
+	for f, pkg := range pkgs {
+		alloc, err := dec.BlockAllocator(digestOf(f))
+		if err != nil {
+			s.viol("C14", "fork-decoder-allocator/"+pkg, fmt.Sprintf("no block allocator for the %s digest: %v", pkg, err))
+			return
+		}
+		blk := alloc()
+		if got := reflect.TypeOf(blk).Elem().PkgPath(); !strings.HasSuffix(got, "/"+pkg) {
+			s.viol("C14", "fork-decoder-allocator/"+pkg, fmt.Sprintf("the %s digest allocates a %s", pkg, reflect.TypeOf(blk)))
+			return
+		}
+		if env := blk.Envelope(&sp, digestOf(f)); env == nil || env.ForkDigest != digestOf(f) {
+			s.viol("C14", "fork-decoder-envelope/"+pkg, fmt.Sprintf("the envelope of an allocated %s block does not carry the digest it was allocated for", pkg))
+			return
+		}
+	}
+	var unknown common.ForkDigest
+	nsf := fnvRoot("no-such-fork", s.cfg.Seed)
+	copy(unknown[:], nsf[:4])
+	if _, err := dec.BlockAllocator(unknown); err == nil {
+		s.viol("C14", "fork-decoder-allocator/unknown-digest-accepted", "an unknown fork digest gets a block allocator")
+	}
+}
+
 // C15: stored states never change once stored (copies are independent).
 func (s *sim) checkImmutability() {
 	w := s.w
@@ -815,6 +913,12 @@ func run(cfg *Config, opt core.Options, res *core.Result) *sim {
 	}
 	if opt.Property == "C13" {
 		s.checkGenesisLogs()
+		if s.stop {
+			return s
+		}
+	}
+	if opt.Property == "C14" || s.frng.Chance(1, 4) {
+		s.checkScheduleLookups()
 		if s.stop {
 			return s
 		}
